@@ -14,6 +14,7 @@ CONSTANTS
   PreRO <- MCPreRO
   FrontKind = "stack"
   KeyShards <- NoKeyShards
+  FaultBudget = 0
 VIEW View
 INVARIANTS InvDirValid InvDebris InvHandle InvNoErr
 PROPERTIES StepImmutable StepReadOnlyFirst StepRemoval StepDurableFirst StepROUntouched
